@@ -136,6 +136,10 @@ def run(chk: Check, proj: Project) -> None:
     s1a_lock_statements(chk, proj, w)
     s1i_shared_instances(chk, proj, w)
     s1g_global_objects(chk, proj, w, reach)
+    from . import C06 as _C06
+
+    chk.borrow("S2", "no residue in the per-render registries once all renders have finished, also when ANOTHER thread's render failed: every insertion into a per-render registry is followed, on the raising paths too, by its release in the same function or a caller's handler - a later sweep that only iterates the callbacks registered at the END of a component's preparation never sees a component that failed earlier (shared with C06-S1a)",
+               lambda sub: _C06.s1a_pairing(sub, proj, w))
     from . import C18
 
     c18m = proj.mod("util.cache")
